@@ -22,6 +22,24 @@ tiny explicit signals.  They are compared SAMPLE BY SAMPLE with the same oracle 
 at every i, so a single sample computed from an already overwritten predecessor - one in 65536 - is a violation);
 the message lists the first wrong indices so that a regular spacing is visible.  For the dither, "adds noise" is read
 per sample: the noise read off a zero signal is non-zero at every sample (an exact 0.0 has probability zero).
+
+ONE INSTANCE, SEVERAL CALLS (check "seq"): the statement speaks of `Preemphasize.apply` / `Dither.apply`, not of the
+first call of a fresh object, so a pre-processor object is also driven through sequences of calls (equal and
+different lengths, same and different dtypes, in_place False / True / default, contiguous / strided / read-only
+inputs, a result or an input of an earlier call fed back in, the public `coeff` attribute re-assigned between calls).
+After EVERY call: the value clause of that call against the same independent oracle (= what a fresh instance must
+give), and every array the caller still holds - results "returned" earlier and inputs that the text says are left
+"untouched unless in_place is set" - is compared bit by bit with what it was before the call; only the array handed in
+with in_place=True may differ.
+  C18.preemph.result_stable / C18.dither.result_stable   an array returned by an earlier call changed afterwards
+  (an input changed -> .input_untouched, also when the input is an earlier result or belongs to an earlier call)
+
+EXTREME SAMPLE VALUES (check "extreme"): "float and integer dtypes" ... "cast back to the input dtype": int8..int64,
+uint8..uint64, float16/32/64 signals made of the rails of the dtype (min, max, min+1, max-1, 0, +-1, ...) in every
+adjacency, and full-range random signals, through both pre-processors with coeff 0 (the identity, exact) and small
+coefficients.  Only samples whose exact float64 value v (y = x[i] - coeff*x[i-1] resp. x[i] + noise[i], from operands
+that are themselves exact in float64) truncates into the dtype's range / is finite in the float dtype are compared,
+so no out-of-range cast behaviour is relied upon.
 """
 import warnings
 
@@ -35,6 +53,55 @@ RTOL = 1e-9
 N_SE = 4.5
 
 DTYPES = ["float32", "float64", "int16", "int32"]
+# "float and integer dtypes" / "cast back to the input dtype": everything numpy calls an integer or a real float that
+# float64 arithmetic can be cast back to
+INT_DTYPES = ["int8", "int16", "int32", "int64", "uint8", "uint16", "uint32", "uint64"]
+ALL_DTYPES = ["float64", "int16", "int8", "int32", "float32", "uint8", "int64", "uint16", "float16", "uint32", "uint64"]
+
+
+def _rails(dt):
+    """The extreme values of the dtype and their neighbours (Python numbers)."""
+    if dt.kind in "iu":
+        ii = np.iinfo(dt)
+        lo, hi = int(ii.min), int(ii.max)
+        v = [lo, hi, lo + 1, hi - 1, 0, 1, hi // 2, hi // 2 + 1]
+        if lo < 0:
+            v += [-1, lo // 2, lo // 2 - 1]
+        if dt.itemsize == 8:
+            # 64-bit integers: the values next to the rails that float64 holds exactly (2^53 and the last float64
+            # below the upper rail), so that samples comparable under the exactness rule exist at both ends
+            top = int(np.nextafter(float(hi + 1), 0.0))
+            v += [top, 2**53, 2**53 + 2, top - 2**20]
+            if lo < 0:
+                v += [-top, -(2**53), lo + 2**11]
+        return v
+    fi = np.finfo(dt)
+    mx, tiny, eps, sub = float(fi.max), float(fi.tiny), float(fi.eps), float(fi.smallest_subnormal)
+    return [-mx, mx, tiny, -tiny, 0.0, 1.0, -1.0, eps, sub, mx / 2, -mx / 2, 1.0 + eps, mx * (1 - eps)]
+
+
+def _extreme_signal(case):
+    """pattern 'rails': min, max, 0, ... in an order in which every ordered pair of (min, max, 0) and of their
+    neighbours is adjacent somewhere (pre-emphasis looks at x[i-1]); pattern 'mix': n samples, a third drawn from
+    the rails, the rest uniform over the WHOLE range of the dtype."""
+    dt = np.dtype(case["dtype"])
+    r = _rails(dt)
+    if case.get("pattern", "rails") == "rails":
+        lo, hi, z = r[0], r[1], (0 if dt.kind in "iu" else 0.0)
+        seq = [lo, hi, z, lo, lo, z, hi, hi, lo, r[2], r[3], z, r[2], lo, r[3], hi, z] + r[4:] + [lo, z, hi]
+        return np.array(seq, dtype=dt)
+    n = int(case["n"])
+    rng = _common.make_rng(case["seed"], "c18:ext:" + str(case.get("salt", "")))
+    if dt.kind in "iu":
+        ii = np.iinfo(dt)
+        x = rng.integers(ii.min, ii.max, size=n, dtype=dt, endpoint=True)
+    else:
+        x = (rng.uniform(-1.0, 1.0, size=n) * float(np.finfo(dt).max)).astype(dt)
+    pick = rng.random(n) < 1.0 / 3.0
+    idx = rng.integers(0, len(r), size=n)
+    railv = np.array(r, dtype=dt)
+    x[pick] = railv[idx[pick]]
+    return x
 
 
 def _signal(case):
@@ -43,6 +110,8 @@ def _signal(case):
     n = int(case["n"])
     if case.get("x") is not None:
         return np.asarray(case["x"], dtype=dt)
+    if case.get("sig") in ("rails", "mix"):
+        return _extreme_signal(dict(case, pattern=case["sig"]))
     rng = _common.make_rng(case["seed"], "c18:sig:" + str(case.get("salt", "")))
     if dt.kind == "i":
         x = rng.integers(-8000, 8001, size=n).astype(dt)
@@ -72,15 +141,55 @@ LONG_FULL = [(1 << 16) + 2, (1 << 17) + 3, 300007]  # every dtype x in_place x l
 LONG_EXTRA = [(1 << 10) + 3, (1 << 12) + 3, (1 << 14) + 2, 1 << 16, (1 << 16) + 1, 1 << 18]  # two dtypes
 
 
-def _oracle_preemph(x, coeff):
+def _oracle_preemph64(x, coeff):
     """y[0] = x[0], y[i] = x[i] - coeff*x[i-1], one sample at a time in Python floats (= float64), every x[i-1]
-    taken from the untouched input list."""
-    x64 = [float(v) for v in x.astype(np.float64).tolist()]  # exact widening; the arithmetic below is the oracle
+    taken from the untouched input list.  Returns the float64 values BEFORE the cast back."""
+    x64 = [float(v) for v in x.tolist()]  # Python int/float -> float: exact (correctly rounded for 64-bit ints)
     out = [0.0] * len(x64)
-    for i in range(len(x64)):
-        out[i] = x64[i] if i == 0 else x64[i] - coeff * x64[i - 1]
     with np.errstate(all="ignore"):
-        return np.array(out, dtype=np.float64).astype(x.dtype)
+        for i in range(len(x64)):
+            out[i] = x64[i] if i == 0 else x64[i] - coeff * x64[i - 1]
+    return np.array(out, dtype=np.float64)
+
+
+def _oracle_preemph(x, coeff):
+    with np.errstate(all="ignore"):
+        return _oracle_preemph64(x, coeff).astype(x.dtype)
+
+
+def _exact_in_f64(x):
+    """Per sample: is x[i] exactly representable in float64 (always, except for 64-bit integers)."""
+    if x.dtype.kind in "iu" and x.dtype.itemsize == 8:
+        return np.array([int(float(t)) == t for t in x.tolist()], dtype=bool).reshape(x.shape)
+    return np.ones(x.shape, dtype=bool)
+
+
+def _cast_back(dt, v):
+    """'cast back to the input dtype' of float64 values v: (want, comparable).  A sample is comparable when the
+    cast is defined by the value alone: integers - v finite and trunc(v) inside [min, max]; floats - v finite and
+    |v| <= the largest finite value of the dtype."""
+    v = np.asarray(v, dtype=np.float64)
+    with np.errstate(all="ignore"):
+        if dt.kind in "iu":
+            ii = np.iinfo(dt)
+            t = np.trunc(v)
+            # float(min) and float(max + 1) are exact for all eight integer dtypes (0 or powers of two)
+            ok = np.isfinite(v) & (t >= float(int(ii.min))) & (t < float(int(ii.max) + 1))
+            want = np.where(ok, t, 0.0).astype(dt)  # integral, in range: the conversion is exact
+        else:
+            ok = np.isfinite(v) & (np.abs(v) <= float(np.finfo(dt).max))
+            want = np.where(ok, v, 0.0).astype(dt)
+    return want, ok
+
+
+def _mismatch(dt, got, want, ok, atol=0.0):
+    """Indices of comparable samples that differ (integers exactly, floats rtol 1e-9)."""
+    if dt.kind in "iu":
+        bad = got != want
+    else:
+        with np.errstate(all="ignore"):
+            bad = ~np.isclose(got.astype(np.float64), want.astype(np.float64), rtol=RTOL, atol=atol)
+    return np.flatnonzero(bad & ok)
 
 
 def _bits(a):
@@ -273,14 +382,257 @@ def _check_dither(case):
     return fails, nontrivial, stats
 
 
+def _expected(proc, xin, coeff, np_seed):
+    """(want, comparable, v) for ONE call of `proc` on the values xin: the float64 values v of the statement
+    (pre-emphasis: the loop oracle; dither: x + the noise a zero float64 signal receives from a fresh Dither(coeff)
+    under the same numpy seed - "noise that does not depend on the signal"), cast back where the cast is defined."""
+    ex = _exact_in_f64(xin)
+    if proc == "preemph":
+        v = _oracle_preemph64(xin, coeff)
+        if len(xin) > 1:
+            ex = ex.copy()
+            ex[1:] &= ex[:-1] | (coeff == 0.0)
+    else:
+        noise = _dither_run(coeff, np.zeros(len(xin), dtype=np.float64), np_seed)
+        with np.errstate(all="ignore"):
+            v = np.array([float(t) for t in xin.tolist()], dtype=np.float64) + noise
+    want, ok = _cast_back(xin.dtype, v)
+    return want, ok & ex, v
+
+
+def _check_extreme(case):
+    """One call of a fresh instance on a signal made of the extreme values of its dtype."""
+    from pydrobert.speech.pre import Preemphasize, Dither
+
+    fails, stats = [], {}
+    proc = case["proc"]
+    coeff = float(case["coeff"])
+    np_seed = int(case.get("np_seed", 0))
+    x = _extreme_signal(case)
+    dt = x.dtype
+    in_place = case.get("in_place", False)
+    a, base = _layout(x, case.get("layout", "contig"))
+    base_before = base.copy()
+    want, ok, v = _expected(proc, x, coeff, np_seed)
+    if proc == "preemph":
+        clause = "C18.preemph.values"
+        name = f"Preemphasize({coeff})"
+    else:
+        clause = "C18.dither.identity0" if coeff == 0 else "C18.dither.dtype_values"
+        name = f"Dither({coeff})"
+    try:
+        with _Seeded(np_seed):
+            got = _apply(Preemphasize(coeff) if proc == "preemph" else Dither(coeff), a, in_place)
+    except Exception as e:  # noqa
+        return [(clause, case, f"{name}.apply raised {type(e).__name__}: {e} on a {dt} signal holding the extreme values of the dtype")], False, stats
+    if not isinstance(got, np.ndarray) or got.dtype != dt or got.shape != x.shape:
+        return [(f"C18.{'preemph.dtype_shape' if proc == 'preemph' else 'dither.dtype_values'}", case, f"result dtype/shape {getattr(got, 'dtype', None)}/{getattr(got, 'shape', None)}, input {dt}/{x.shape}")], False, stats
+    atol = RTOL * coeff if proc == "dither" else 0.0
+    idx = _mismatch(dt, got, want, ok, atol)
+    if len(idx):
+        i = int(idx[0])
+        what = "x[i] (coeff 0 is the identity)" if coeff == 0 else ("cast(x[i] - coeff*x[i-1])" if proc == "preemph" else "cast(x[i] + noise[i])")
+        prev = f", x[{i-1}]={x[i-1]!r}" if proc == "preemph" and i else ""
+        fails.append((clause, case, f"{name}.apply on {dt}: out[{i}] = {got[i]!r}, expected {what} = {want[i]!r} (x[{i}]={x[i]!r}{prev}, float64 value before the cast back {float(v[i])!r}, {dt} holds {_range_txt(dt)}); {len(idx)} of {int(ok.sum())} well-defined samples wrong, first indices {[int(t) for t in idx[:4]]}, in_place={in_place}"))
+    if not in_place:
+        if _bits(base) != _bits(base_before):
+            fails.append((f"C18.{proc}.input_untouched", case, "input array modified with in_place=False"))
+        if len(x) and np.shares_memory(got, base):
+            fails.append((f"C18.{proc}.input_untouched", case, "result shares memory with the input with in_place=False"))
+    rails = set(_rails(dt)[:2])
+    stats["compared"] = int(ok.sum())
+    stats["at_rail"] = int(np.sum(ok & np.isin(x, list(rails))))
+    return fails, stats["at_rail"] > 0, stats
+
+
+def _range_txt(dt):
+    if dt.kind in "iu":
+        return f"[{np.iinfo(dt).min}, {np.iinfo(dt).max}]"
+    return f"+-{float(np.finfo(dt).max)!r}"
+
+
+def _first_diff(old, new):
+    o, n = np.ascontiguousarray(old).reshape(-1), np.ascontiguousarray(new).reshape(-1)
+    if not len(o):
+        return "bit pattern changed"
+    d = np.flatnonzero((o.view(np.uint8).reshape(len(o), -1) != n.view(np.uint8).reshape(len(n), -1)).any(axis=1))
+    i = int(d[0])
+    return f"{len(d)} of {len(o)} samples differ, first at [{i}]: was {o[i]!r}, is now {n[i]!r}"
+
+
+def _check_sequence(case):
+    """ONE pre-processor object, several calls.  Statement clauses, each after every call:
+      * "Preemphasize.apply returns y[0] = x[0], y[i] = x[i] - coeff*x[i-1] ... cast back to the input dtype" /
+        "Dither.apply adds noise that does not depend on the signal ..., is reproducible under numpy.random.seed":
+        the call's result equals the oracle's (which knows nothing of earlier calls = what a fresh instance gives);
+      * "returns": an array returned earlier still holds what was returned (nobody but the caller owns it);
+      * "Both leave their input untouched unless in_place is set": every array handed in with in_place False - in
+        this call or an earlier one, a fresh signal or an earlier result fed back in - is bit-identical afterwards;
+        only the array of THIS call with in_place=True may change;
+      * "in which case the same values are produced" (float64 written through)."""
+    from pydrobert.speech.pre import Preemphasize, Dither
+
+    fails, stats = [], {}
+    proc = case["proc"]
+    coeff = float(case["coeff"])
+    obj = Preemphasize(coeff) if proc == "preemph" else Dither(coeff)
+    cname = "Preemphasize" if proc == "preemph" else "Dither"
+    val_clause = "C18.preemph.values" if proc == "preemph" else "C18.dither.dtype_values"
+    held = []  # arrays the caller holds: {"what", "base", "snap", "kind"}
+    results, inputs = [], []
+    nontrivial = False
+    for j, st in enumerate(case["steps"]):
+        if "coeff" in st:
+            # `coeff` is the documented public attribute the formula's coeff is read from
+            coeff = float(st["coeff"])
+            obj.coeff = coeff
+        src = st.get("src", "new")
+        if src == "new":
+            x = _signal({"dtype": st["dtype"], "n": st["n"], "seed": case["seed"], "salt": f"{case.get('salt', '')}:s{j}", "sig": st.get("sig")})
+            a, base = _layout(x, st.get("layout", "contig"))
+            origin = "a new signal" + ("" if st.get("layout", "contig") == "contig" else f" ({st['layout']} view)")
+            held.append({"what": f"the input of call {j}", "base": base, "snap": base.copy(), "kind": "input"})
+        elif src == "res":
+            a = base = results[int(st["k"])]
+            origin = f"the array returned by call {st['k']}"
+        else:
+            a, base = inputs[int(st["k"])]
+            origin = f"the input array of call {st['k']} again"
+        in_place = st.get("in_place", False)
+        if in_place and not a.flags.writeable:
+            in_place = False
+        xin = np.array(a, copy=True)
+        dt = xin.dtype
+        np_seed = int(case.get("np_seed", 0)) + j
+        want, ok, v = _expected(proc, xin, coeff, np_seed)
+        desc = f"call {j} of one {cname} instance ({origin}, {dt}, length {len(xin)}, coeff={coeff}, in_place={in_place})"
+        try:
+            with _Seeded(np_seed):
+                got = _apply(obj, a, in_place)
+        except Exception as e:  # noqa
+            fails.append((val_clause, case, f"{desc}: apply raised {type(e).__name__}: {e}"))
+            break
+        if not isinstance(got, np.ndarray) or got.dtype != dt or got.shape != xin.shape:
+            fails.append((f"C18.{'preemph.dtype_shape' if proc == 'preemph' else 'dither.dtype_values'}", case, f"{desc}: result dtype/shape {getattr(got, 'dtype', None)}/{getattr(got, 'shape', None)}"))
+            break
+        atol = RTOL * coeff if proc == "dither" else 0.0
+        idx = _mismatch(dt, got, want, ok, atol)
+        if len(idx):
+            i = int(idx[0])
+            fails.append((f"C18.{proc}.in_place" if in_place else val_clause, case, f"{desc}: out[{i}] = {got[i]!r}, expected {want[i]!r} (what a fresh instance gives; x[{i}]={xin[i]!r}); {len(idx)} of {int(ok.sum())} samples wrong, first indices {[int(t) for t in idx[:4]]}"))
+        # everything the caller holds
+        for r in held:
+            if _bits(r["base"]) == _bits(r["snap"]):
+                continue
+            mine = r["base"] is base or np.shares_memory(r["base"], base)
+            if mine and in_place:
+                r["snap"] = r["base"].copy()  # permitted: this call was allowed to modify its signal
+                continue
+            diff = _first_diff(r["snap"], r["base"])
+            if mine:
+                fails.append((f"C18.{proc}.input_untouched", case, f"{desc}: the input array was modified although in_place=False ({diff})"))
+            elif r["kind"] == "input":
+                fails.append((f"C18.{proc}.input_untouched", case, f"{desc}: {r['what']} (a different array, not handed to this call) was modified ({diff})"))
+            else:
+                fails.append((f"C18.{proc}.result_stable", case, f"{desc}: {r['what']} - still held by the caller and not handed to this call - changed ({diff}); it no longer holds the values apply returned"))
+            r["snap"] = r["base"].copy()
+        if len(xin):
+            shares = np.shares_memory(got, base)
+            if not in_place and shares:
+                fails.append((f"C18.{proc}.input_untouched", case, f"{desc}: the result shares memory with the input although in_place=False"))
+            if in_place and dt == np.float64:
+                if not shares or len(_mismatch(dt, np.asarray(a), want, ok, atol)):
+                    fails.append((f"C18.{proc}.in_place", case, f"{desc}: float64 input with in_place=True was not written through"))
+        if not any(r["base"] is got for r in held):
+            held.append({"what": f"the array returned by call {j}", "base": got, "snap": got.copy(), "kind": "result"})
+        results.append(got)
+        inputs.append((a, base))
+        nontrivial = nontrivial or (j >= 1 and len(xin) >= 2)
+        stats["calls"] = j + 1
+        if len(fails) >= 4:
+            break
+    return fails, nontrivial, stats
+
+
 def _check_case(case):
     _common.use_repo()
     if case["check"] == "preemph":
         return _check_preemph(case)
+    if case["check"] == "seq":
+        return _check_sequence(case)
+    if case["check"] == "extreme":
+        return _check_extreme(case)
     return _check_dither(case)
 
 
 # ------------------------------------------------------------------------------------------
+
+
+def _enumerate_reuse_and_extremes(tier, seed):
+    """The cases of the checks "seq" (one instance, several calls) and "extreme" (rails of every dtype)."""
+    cases = []
+    rng = _common.make_rng(seed, "c18:seq")
+    nps = lambda: int(rng.integers(0, 2**31 - 100))  # noqa: E731
+    procs = (("preemph", 0.97), ("dither", 1.5))
+    # (a) call A, call B, then a probe call (new float64 signal of A's length): every A x B of a small alphabet.
+    firsts = [("float64", False), ("float64", True), ("float64", None), ("float32", False), ("int16", False), ("int16", True), ("float32", True)]
+    seconds = [{"src": "new", "dtype": "float64", "n": 6, "in_place": False}, {"src": "res", "k": 0, "in_place": False}]
+    seconds += [{"src": "res", "k": 0, "in_place": True}, {"src": "inp", "k": 0, "in_place": False}, {"src": "inp", "k": 0, "in_place": True}]
+    seconds += [{"src": "new", "dtype": dt, "n": n, "in_place": ip} for dt in ("float64", "float32", "int16") for n in (6, 9) for ip in (False, True) if not (dt == "float64" and n == 6 and ip is False)]
+    k = 0
+    for dt, ip in firsts:
+        for b in seconds:
+            for proc, coeff in procs:
+                steps = [{"src": "new", "dtype": dt, "n": 6, "in_place": ip}, dict(b), {"src": "new", "dtype": "float64", "n": 6, "in_place": False}]
+                cases.append({"check": "seq", "proc": proc, "coeff": coeff, "seed": seed, "salt": f"ab{k}", "np_seed": nps(), "steps": steps})
+                k += 1
+    # (b) chains: every result fed back in (higher-order pre-emphasis / repeated dithering), lengths 0..5, 1000 and
+    # longer than any plausible block; the same length twice, another length, the first length again
+    for proc, coeff in procs:
+        for dt in ("float64", "float32", "int32"):
+            for n in (3, 1000, 5, 2, 1, 0, (1 << 16) + 2):
+                if n > 1000 and dt != "float64":
+                    continue
+                steps = [{"src": "new", "dtype": dt, "n": n, "in_place": False}] + [{"src": "res", "k": i, "in_place": None if i == 1 else False} for i in range(3)]
+                cases.append({"check": "seq", "proc": proc, "coeff": coeff, "seed": seed, "salt": f"ch{dt}{n}", "np_seed": nps(), "steps": steps})
+                m = n + 1 if n < 1000 else n // 2
+                steps = [{"src": "new", "dtype": dt, "n": q, "in_place": False, "layout": lay} for q, lay in ((n, "contig"), (n, "readonly"), (m, "contig"), (n, "strided"), (m, "contig"), (n, "contig"))]
+                cases.append({"check": "seq", "proc": proc, "coeff": coeff, "seed": seed, "salt": f"ln{dt}{n}", "np_seed": nps(), "steps": steps})
+    # (c) extreme values: rails of every integer / float dtype, coeff 0 (identity) and small coefficients
+    ext_coeffs = {"preemph": (0.0, 0.5, -0.25, 2.0**-10), "dither": (0.0, 0.4, 1e-3)}
+    for dt in ALL_DTYPES:
+        for proc in ("dither", "preemph"):
+            for coeff in ext_coeffs[proc]:
+                for ip in (False, True):
+                    cases.append({"check": "extreme", "proc": proc, "dtype": dt, "coeff": coeff, "pattern": "rails", "seed": seed, "np_seed": nps(), "in_place": ip, "layout": "contig"})
+                cases.append({"check": "extreme", "proc": proc, "dtype": dt, "coeff": coeff, "pattern": "mix", "n": 400, "salt": f"m{dt}", "seed": seed, "np_seed": nps(), "in_place": False, "layout": "strided" if coeff else "readonly"})
+    # (d) random call sequences of one instance over every dtype, length, layout, in_place setting, feedback of any
+    # earlier result / input, rails in the signals, and the coeff attribute re-assigned between calls
+    n_rand = 120 if tier == "quick" else 2500
+    lens = [6, 6, 6, 9, 3, 2, 1, 0, 5, 64, 1000]
+    for q in range(n_rand):
+        for proc, coeffs in (("preemph", (0.97, 0.5, -0.5, 0.0, 1.0)), ("dither", (1.5, 0.3, 0.0, 20.0))):
+            nsteps = int(rng.integers(3, 9))
+            steps = []
+            for j in range(nsteps):
+                u = rng.random()
+                if j and u < 0.25:
+                    st = {"src": "res", "k": int(rng.integers(0, j))}
+                elif j and u < 0.35:
+                    st = {"src": "inp", "k": int(rng.integers(0, j))}
+                else:
+                    dt = ALL_DTYPES[int(rng.integers(0, len(ALL_DTYPES)))] if rng.random() < 0.5 else "float64"
+                    st = {"src": "new", "dtype": dt, "n": lens[int(rng.integers(0, len(lens)))], "layout": ("contig", "contig", "strided", "readonly")[int(rng.integers(0, 4))]}
+                    if dt not in DTYPES or rng.random() < 0.2:
+                        st["sig"] = "mix"
+                st["in_place"] = (False, False, True, None)[int(rng.integers(0, 4))]
+                if st.get("layout") == "readonly" and st["in_place"]:
+                    st["in_place"] = False
+                if j and rng.random() < 0.1:
+                    st["coeff"] = coeffs[int(rng.integers(0, len(coeffs)))]
+                steps.append(st)
+            cases.append({"check": "seq", "proc": proc, "coeff": coeffs[int(rng.integers(0, len(coeffs)))], "seed": seed, "salt": f"rs{q}", "np_seed": nps(), "steps": steps})
+    return cases
 
 
 def _enumerate(tier, seed):
@@ -291,6 +643,8 @@ def _enumerate(tier, seed):
     for dt in DTYPES:
         for in_place in (False, True):
             cases.append({"check": "preemph", "dtype": dt, "n": 4, "x": [1000, 2000, -3000, 500], "coeff": 0.97, "in_place": in_place, "layout": "contig"})
+    # one instance used for several calls; extreme values of every dtype (cheap and discriminating: early)
+    cases += _enumerate_reuse_and_extremes(tier, seed)
     # "for all signal lengths": signals longer than any plausible internal block size, every dtype / in_place / layout
     rng_np = _common.make_rng(seed, "c18:npseeds-long")
     for n in LONG_FULL:
@@ -351,6 +705,8 @@ def run(tier: str, seed: int) -> dict:
     n_float = n_biteq = 0
     zmax = 0.0
     lin_worst = 0.0
+    n_seq = n_calls = n_ext = n_ext_cmp = n_ext_rail = 0
+    seen_kind = set()
     for case in _enumerate(tier, seed):
         if col.out_of_time() or col.too_many_failures():
             col.note("stopped early (time or failure cap)")
@@ -359,7 +715,15 @@ def run(tier: str, seed: int) -> dict:
             fails, nontrivial, stats = _check_case(case)
         except Exception as e:  # noqa
             fails, nontrivial, stats = [("C18.exception", case, f"{type(e).__name__}: {e}")], False, {}
-        col.case(case, nontrivial=nontrivial, sample=case if (case.get("n") in (3, 5) and case.get("layout") in (None, "strided")) or (case.get("n") == LONG_FULL[0] and case.get("layout") == "strided" and case.get("dtype") == "int16") else None)
+        is_sample = (case.get("n") in (3, 5) and case.get("layout") in (None, "strided")) or (case.get("n") == LONG_FULL[0] and case.get("layout") == "strided" and case.get("dtype") == "int16")
+        is_sample = (is_sample and case["check"] not in ("seq", "extreme")) or (case["check"] in ("seq", "extreme") and case["check"] not in seen_kind)
+        seen_kind.add(case["check"])
+        col.case(case, nontrivial=nontrivial, sample=case if is_sample else None)
+        n_seq += int(case["check"] == "seq")
+        n_calls += stats.get("calls", 0)
+        n_ext += int(case["check"] == "extreme")
+        n_ext_cmp += stats.get("compared", 0)
+        n_ext_rail += stats.get("at_rail", 0)
         if "bit_equal" in stats and case["dtype"].startswith("float"):
             n_float += 1
             n_biteq += int(stats["bit_equal"])
@@ -369,9 +733,11 @@ def run(tier: str, seed: int) -> dict:
             col.fail(clause, c, msg)
     col.note(f"pre-emphasis float cases bit-identical to the float64 loop oracle: {n_biteq}/{n_float} (tolerance allowed rtol 1e-9)")
     col.note(f"dither: largest |z| over the moment tests = {zmax:.2f} standard errors (limit {N_SE}); worst relative deviation of noise(c)/c from noise(1) = {lin_worst:.2e}")
+    col.note(f"one instance, several calls: {n_seq} call sequences, {n_calls} calls in all; after every call the result is compared with the oracle and every array the caller holds (earlier results, inputs) with its previous bit pattern")
+    col.note(f"extreme values: {n_ext} signals over {len(ALL_DTYPES)} dtypes ({', '.join(ALL_DTYPES)}); {n_ext_cmp} samples with a well-defined cast compared, {n_ext_rail} of them with x[i] = min or max of the dtype")
     return col.result(
-        rule="one case = (transform, dtype, length, coeff, in_place / default, memory layout contiguous|read-only|strided view) or one dither clause instance (numpy seed, length, coeff); non-trivial when the signal has >= 2 samples (pre-emphasis) / >= 1 sample and non-zero noise (dither)",
-        bound="BOUNDED: 1-D signals of lengths 0..5 and 1000 (thorough: + 400 random lengths < 300) and, for both transforms, every dtype, in_place False/True/default and contiguous/strided/read-only layouts, the long lengths 2^16+2, 2^17+3 and 300007 (pre-emphasis also 2^10+3, 2^12+3, 2^14+2, 2^16, 2^16+1, 2^18 for float64/int16) compared sample by sample, dtypes f32/f64/i16/i32, |x| <= 8000 (ints) / ~N(0,100^2) (floats), coefficients {0.97,1,-0.5,0,0.9375,0.1} (+ random in [-1.5,1.5]); dither moments on 1e5 samples for 5 (quick) / 40 (thorough) numpy seeds x 3 coeffs at 4.5 standard errors (statistical)",
+        rule="one case = (transform, dtype, length, coeff, in_place / default, memory layout contiguous|read-only|strided view) or one dither clause instance (numpy seed, length, coeff) or one call sequence of a single instance (3..8 calls; per call: new signal / earlier result / earlier input, dtype, length, layout, in_place, optional new coeff) or one extreme-value signal (transform, dtype, coeff, rails|mix, in_place); non-trivial when the signal has >= 2 samples (pre-emphasis) / >= 1 sample and non-zero noise (dither) / a second or later call on >= 2 samples (sequence) / >= 1 compared sample sits at the min or max of the dtype (extreme)",
+        bound="BOUNDED: 1-D signals of lengths 0..5 and 1000 (thorough: + 400 random lengths < 300) and, for both transforms, every dtype, in_place False/True/default and contiguous/strided/read-only layouts, the long lengths 2^16+2, 2^17+3 and 300007 (pre-emphasis also 2^10+3, 2^12+3, 2^14+2, 2^16, 2^16+1, 2^18 for float64/int16) compared sample by sample, dtypes f32/f64/i16/i32, |x| <= 8000 (ints) / ~N(0,100^2) (floats), coefficients {0.97,1,-0.5,0,0.9375,0.1} (+ random in [-1.5,1.5]); dither moments on 1e5 samples for 5 (quick) / 40 (thorough) numpy seeds x 3 coeffs at 4.5 standard errors (statistical); ONE INSTANCE REUSED: all (call A, call B, probe) triples over A in {f64,f32,i16} x in_place, B in {new signal of equal / other length and dtype, A's result fed back, A's input again} x in_place, result-feedback chains and equal/other/equal-length chains at lengths 0..5, 1000, 2^16+2, and 120 (thorough 2500) random sequences of 3..8 calls per transform over 11 dtypes, lengths 0..1000, three layouts, coeff re-assigned between calls; EXTREME VALUES: int8..int64, uint8..uint64, float16/32/64 signals of the dtype's rails in every adjacency (34 samples or fewer) and 400 full-range samples, coeff 0 and {0.5,-0.25,2^-10} (pre-emphasis) / {0.4,1e-3} (dither), only samples with a value-defined cast compared (64-bit integers: only samples exact in float64)",
         assumptions=ASSUMPTIONS,
     )
 
